@@ -53,3 +53,13 @@ claim("C17",
  "Static, for all arrival orders and failing/panicking requests: decides conservation of wrappers (allocated only at construction, bijective tags, removed from a list only by the pop that hands them out), that every successful acquire is paired with a deferred put of the same wrapper exactly once on all exits including panics, that putGengineLocked appends exactly once to the list chosen by gw.addition under its lock, that no two callers can pop the same wrapper, and that getGengine never fails and holds no lock across a retry. Right level: a leak on an error path or a double hand-out is a missing/extra node on a CFG path.",
  "Trusted: go/types + go/ssa, sync contracts, defer semantics. Not decided: fairness of the spin-wait, timing.",
  "acquire/deferred-release pairing over the CFG (A10), may/must lockset analysis, who-may-allocate analysis, symbolic loop bounds, over go/ssa")
+
+claim("C07",
+ "Static, for all interleavings of updates and executions: decides the three structural conditions that make an update atomic per execution and visible afterwards — exactly one read of the published container per engine execute method, before anything runs (U1); no write into KnowledgeContext memory other than on a container the same function just created, compiled rules never edited after compilation (U2); every management operation stores the master's new container into every instance i in [0,max) before a successful return (U3), under updateLock (U4), only after compilation succeeded (U5), and no pool lock is held while rules run (U6). Right level: torn reads and missed instances are properties of which loads/stores exist on which paths, for every schedule.",
+ "Trusted: go/types + go/ssa, sync contracts. Not decided: visibility of the unsynchronised pointer publication under the Go memory model (that is known finding D12(c), reported under C19, not claimed to hold here); order between concurrent updates beyond mutual exclusion.",
+ "single-read (snapshot) check, typestate fresh/published over go/ssa values with alias tracking through slices and appends, symbolic loop bounds, lockset analysis, must-not-reach (publish then error)")
+
+claim("C16",
+ "Static, for every sequence of management operations: decides that the nil-able master builder is never used without a dominating (path-sensitive) nil test or re-creation, that master and instances are updated together under updateLock with the cleared flag maintained, that the rule queries read the master under the lock and honour the flag, that all 24 execute methods run nothing on a cleared pool, that the execution-model validation and the 4x3 dispatch table are exact and every other pool method forwards to the engine method of the same name with arguments in place, and that all instances in [0,max) are covered. Right level: 'no sequence panics' and 'instances follow the master' are reachability/shape facts about the management code.",
+ "Trusted: go/types + go/ssa. Not decided: equality of query answers with the denoted set over histories (inherits the undecided algebra of C08). PluginLoader (outside the property's operation list) is exempt.",
+ "path-sensitive nil-guard analysis, sibling/table cross-check of dispatchers, lockset and loop-bound rules over go/ssa")
